@@ -77,6 +77,7 @@ var knobs = []struct{ pkg, name, setter string }{
 // code injected at the entry of named functions of the dependency copies
 var injections = []struct{ pkg, recv, fn, code string }{
 	{"github.com/mit-pdos/go-journal/alloc", "Alloc", "AllocNum", `if __simrt.FaultPoint("alloc") { return 0 }; `},
+	{"github.com/mit-pdos/go-journal/alloc", "Alloc", "allocBit", `if __simrt.AllocLowest { a.mu.Lock(); a.next = 0; a.mu.Unlock() }; `},
 	{"github.com/mit-pdos/go-journal/lockmap", "LockMap", "Acquire", `__simrt.LockEvent(0, flataddr); defer __simrt.LockEvent(1, flataddr); `},
 	{"github.com/mit-pdos/go-journal/lockmap", "LockMap", "Release", `__simrt.LockEvent(2, flataddr); `},
 	// reach probes (rare branches the workloads are meant to hit)
